@@ -23,7 +23,7 @@ ID = 'C14'
 MODULE = 'SshAudit.Props.C14'
 NAMESPACE = 'SshAudit.C14'
 THEOREMS = ['numCmp_antisymm', 'numCmp_trans', 'compareVersionNumbers_numeric', 'splitOther_grammar',
-            'compare_numeric', 'compare_numeric_nat', 'compare_numeric_software', 'compare_numeric_one_digit_false', 'compare_numeric_examples',
+            'compare_numeric', 'compare_numeric_nat', 'compare_numeric_software', 'compare_numeric_one_digit', 'compare_numeric_one_component', 'compare_numeric_examples',
             'compare_antisymm', 'compare_trans', 'compare_trans_strict', 'compare_sign',
             'openssh_patch_order', 'openssh_p1_same_as_plain', 'dropbear_test_older_than_release',
             'hpn_triple_not_transitive', 'openssh_p0_not_transitive',
@@ -38,17 +38,17 @@ LEVEL_TEXT = ('compare_version = component-wise numeric comparison (then the pro
               '"numerically at least the first version"; Timeframe\'s string min/max is proved numerically right for the version strings the current '
               'databases contain (kernel-evaluated on the regenerated tables).  The model is run by a compiled driver and compared with the real code.')
 LEVEL_NOTE = ('Trusted: Lean kernel, the correspondence harness/generators, CPython re/int/str semantics as modelled (ASCII only: \\d = 0-9, \\s = the ten ASCII '
-              'white-space characters). One class is a recorded finding, proved as a negation: a ONE-character version followed by a patch suffix ("9p1") is '
-              'not split by ^([\\d\\.]+\\d+)(.*)$ and is then compared as a string (compare_numeric_one_digit_false). OpenSSH "p0" and patches with text after '
-              'pN ("p1-hpn") are outside the grammar: non-transitive there (proved as remarks). Timeframe still compares strings: safe only while '
-              'db_versions_order_safe holds (it breaks, naming the pair, when e.g. "10.0" is added to the database).')
+              'white-space characters). The former finding D13-onechar (a ONE-character version followed by a patch suffix, "9p1", was not split and was compared as a '
+              'string) is repaired in /repo (3f4ea53); compare_numeric now covers it (compare_numeric_one_digit, compare_numeric_one_component) and its witnesses run first '
+              'as a regression corpus. OpenSSH "p0" and patches with text after pN ("p1-hpn") are outside the grammar: non-transitive there (proved as remarks). Timeframe '
+              'still compares strings: safe only while db_versions_order_safe holds (it breaks, naming the pair, when e.g. "10.0" is added to the database).')
 
 OPENSSH, DROPBEAR, LIBSSH = 'OpenSSH', 'Dropbear SSH', 'libssh'
 PATCHES = {OPENSSH: [''] + ['p%d' % i for i in range(1, 10)],
            DROPBEAR: [''] + ['test%d' % i for i in range(0, 10)],
            LIBSSH: ['']}
 VALS = list(range(0, 13)) + [99, 100, 101] + list(range(2013, 2026))
-SPLIT_RX = r'^([\d\.]+\d+)(.*)$'      # copy of the expression in compare_version (regex-model validation only)
+SPLIT_RX = r'^([\d\.]*\d+)(.*)$'      # copy of the expression in compare_version (regex-model validation only)
 
 
 # ---------------------------------------------------------------- independent spec (oracle side)
@@ -96,8 +96,9 @@ def spec_available(product, sver, spatch, v0, for_server=True):
     return False
 
 
-def one_digit_with_patch(v):
-    return len(v[0]) == 1 and v[1] != ''
+def shape_class(*vs):
+    """Names the input shape in the failure signature (no shape is excused: D13-onechar is repaired)."""
+    return 'one_digit_version_with_patch' if any(len(v[0]) == 1 and v[1] != '' for v in vs) else 'grammar'
 
 
 # ---------------------------------------------------------------- implementation adapters
@@ -505,7 +506,7 @@ def check(inp):
     out = []
     if k == 'compare':
         p, a, b = inp['product'], tuple(inp['a']), tuple(inp['b'])
-        cls = 'one_digit_version_with_patch' if (one_digit_with_patch(a) or one_digit_with_patch(b)) else 'grammar'
+        cls = shape_class(a, b)
         want = spec_cmp(p, a, b)
         for flavour in (False, True):
             got = cmp_impl(p, a, b, flavour)
@@ -516,7 +517,7 @@ def check(inp):
                 out.append(({'kind': 'compare_not_antisymmetric', 'class': cls}, {'a_vs_b': got, 'b_vs_a': back, 'argument': 'Software' if flavour else 'str'}, 'a_vs_b == -b_vs_a'))
     elif k == 'trans':
         p, a, b, c = inp['product'], tuple(inp['a']), tuple(inp['b']), tuple(inp['c'])
-        cls = 'one_digit_version_with_patch' if any(one_digit_with_patch(x) for x in (a, b, c)) else 'grammar'
+        cls = shape_class(a, b, c)
         ab, bc, ac = cmp_impl(p, a, b, False), cmp_impl(p, b, c, False), cmp_impl(p, a, c, False)
         bad = (ab <= 0 and bc <= 0 and not ac <= 0) or (ab >= 0 and bc >= 0 and not ac >= 0) or \
               (ab < 0 and bc <= 0 and not ac < 0) or (ab <= 0 and bc < 0 and not ac < 0) or (ab == 0 and bc == 0 and ac != 0)
@@ -635,6 +636,15 @@ def e2e(banner):
 # ---------------------------------------------------------------- run
 
 CORPUS = [
+    # D13-onechar witnesses (repaired in /repo, 3f4ea53): a one-character version followed by a patch suffix
+    {'check': 'compare', 'product': OPENSSH, 'a': ['10', ''], 'b': ['9', 'p1']},
+    {'check': 'compare', 'product': OPENSSH, 'a': ['3', ''], 'b': ['3', 'p1']},
+    {'check': 'compare', 'product': OPENSSH, 'a': ['9', 'p1'], 'b': ['10', 'p1']},
+    {'check': 'compare', 'product': OPENSSH, 'a': ['3', 'p2'], 'b': ['3', 'p1']},
+    {'check': 'compare', 'product': DROPBEAR, 'a': ['9', ''], 'b': ['9', 'test3']},
+    {'check': 'compare', 'product': DROPBEAR, 'a': ['10', 'test1'], 'b': ['9', 'test3']},
+    {'check': 'trans', 'product': OPENSSH, 'a': ['10', ''], 'b': ['9', 'p7'], 'c': ['10', '']},
+    {'check': 'trans', 'product': OPENSSH, 'a': ['3', ''], 'b': ['3', 'p1'], 'c': ['3', 'p2']},
     # D13 witnesses (repaired in /repo): multi-digit components
     {'check': 'compare', 'product': OPENSSH, 'a': ['10.0', ''], 'b': ['9.9', '']},
     {'check': 'compare', 'product': OPENSSH, 'a': ['10.0', 'p1'], 'b': ['9.9', 'p2']},
@@ -647,8 +657,6 @@ CORPUS = [
     {'check': 'compare', 'product': OPENSSH, 'a': ['7.10', ''], 'b': ['7.9', '']},
     {'check': 'compare', 'product': OPENSSH, 'a': ['7.4.1', ''], 'b': ['7.4', '']},
     {'check': 'compare', 'product': OPENSSH, 'a': ['100', ''], 'b': ['99', 'p1']},
-    # recorded finding: one-character version followed by a patch suffix
-    {'check': 'compare', 'product': OPENSSH, 'a': ['10', ''], 'b': ['9', 'p1']},
     {'check': 'trans', 'product': OPENSSH, 'a': ['9.9', ''], 'b': ['10.0', ''], 'c': ['10.1', 'p1']},
     {'check': 'between', 'product': OPENSSH, 'a': ['10.0', 'p1'], 'from': '9.9', 'till': '10.1'},
     {'check': 'between', 'product': LIBSSH, 'a': ['0.10.6', ''], 'from': '0.9.8', 'till': '0.11.1'},
